@@ -1486,7 +1486,7 @@ fn c14(a: &Args) -> Report {
                 s.followup = vec![COp::R(0), COp::w(1, 50), COp::R(1), COp::M(Op::Rot), COp::w(0, 60), COp::R(0)];
                 s.cancel = Some(sched::Cancel { client: 0, op: 0, k: usize::MAX });
                 s.bound = if thorough { 3 } else { 2 };
-                s.max_execs = if thorough { 30_000 } else { 600 };
+                s.max_execs = if thorough { 30_000 } else { 480 };
                 bases.push(s);
             }
         }
